@@ -20,7 +20,8 @@ Spec syntax (spec.txt):
   @ghost NAME#K@body-begin  right after the opening brace of the loop body
   @ghost NAME#K@body-end    right before the closing brace of the loop body
   @ghost NAME#K@after       right after the loop statement
-  @ghost NAME@ret           right before every `return` of NAME (wrapped in a block)
+  @ghost NAME@ret           right before every `return` of NAME (wrapped in a block) and at the closing brace
+  @ghost NAME@ret:K         right before the K-th `return` (textual order) only
   @before NAME              top-level text before the definition of NAME
   @loops NAME N             must-fire: NAME contains exactly N loops
   @unstatic NAME            drop `static` (and `inline`) from the definition of NAME
@@ -214,7 +215,7 @@ def parse_spec(text):
             if i >= len(lines):
                 raise InjectError('spec: %s %s not terminated by @end' % (d, parts[1]))
             i += 1
-            items.append((d[1:], parts[1], '\n'.join(body)))
+            items.append((d[1:], s.split(None, 1)[1].strip(), '\n'.join(body)))
             continue
         raise InjectError('spec line %d: unknown directive %s' % (i+1, d))
     return items
@@ -315,10 +316,24 @@ def inject(src, spec_text, preamble_inc=None, trailer_inc=None):
             if l['contract_after'] is None:
                 raise InjectError('do-loop without while tail: %s' % target)
             ins.append((tok_end(l['contract_after']), order, '\n' + body + '\n'))
+        elif kind == 'ghost' and '@after:"' in target:
+            # statement-level anchor: @ghost NAME@after:"code snippet ending in ;"  (snippet must occur exactly once in NAME)
+            fn = target.split('@', 1)[0]
+            snip = target.split('@after:"', 1)[1]
+            if not snip.endswith('"'): raise InjectError('bad anchor %s' % target)
+            snip = snip[:-1]
+            check_ghost(body, target)
+            f = get_func(fn)
+            lo, hi = toks[f['lbrace']][2], toks[f['rbrace']][2]
+            region = src[lo:hi]
+            if region.count(snip) != 1:
+                raise InjectError('anchor miss: snippet %r occurs %d times in %s' % (snip, region.count(snip), fn))
+            ins.append((lo + region.index(snip) + len(snip), order, '\n' + body + '\n'))
         elif kind == 'ghost':
-            m = re.match(r'^(\w+)(?:#(\d+))?@([\w-]+)$', target)
+            m = re.match(r'^(\w+)(?:#(\d+))?@([\w-]+)(?::(\d+))?$', target)
             if not m: raise InjectError('bad ghost anchor %s' % target)
             fn, li, where = m.group(1), m.group(2), m.group(3)
+            retk = int(m.group(4)) if m.group(4) else None
             check_ghost(body, target)
             f = get_func(fn)
             if li is None:
@@ -333,13 +348,17 @@ def inject(src, spec_text, preamble_inc=None, trailer_inc=None):
                             # find the terminating ';'
                             j = k
                             while not (toks[j][0] == 'p' and toks[j][1] == ';'): j += 1
-                            ins.append((toks[k][2], order, '{ ' + body + ' '))
-                            ins.append((tok_end(j), order, ' }'))
                             nret += 1
+                            if retk is None or retk == nret:
+                                ins.append((toks[k][2], order, '{ ' + body + ' '))
+                                ins.append((tok_end(j), order, ' }'))
                             k = j
                         k += 1
-                    # falling off the end (void functions)
-                    ins.append((toks[f['rbrace']][2], order, '\n' + body + '\n'))
+                    if retk is None:
+                        # falling off the end (void functions; dead code after a final return otherwise)
+                        ins.append((toks[f['rbrace']][2], order, '\n' + body + '\n'))
+                    elif retk > nret:
+                        raise InjectError('anchor miss: %s has %d return statements' % (fn, nret))
                 else:
                     raise InjectError('bad ghost anchor %s' % target)
             else:
